@@ -6,8 +6,11 @@
   Conventions
   * `Res String β`: `.ok v` = the Go value, `.panic why` = a Go panic (explicit `panic(...)` or an
     index out of range), `.err why` = the MODEL ran out of fuel / the clip model got stuck — never
-    produced by the Go code; that neither occurs for a box of positive area and a valid orientation
-    is a theorem (`geometry_total`, `aroundBound_total`, `smartWrap_total` in OrbProofs/C16.lean).
+    produced by the Go code.  Over an EXACT ordered field that neither occurs for a box of positive area
+    and a valid orientation is a theorem (`geometry_total`, `aroundBound_total`, `smartWrap_total` in
+    OrbProofs/C16.lean); the clip loop itself cannot get stuck in ANY arithmetic since /repo 2c23ded
+    (`Clip.line_total_any`; before that fix the Go loop did not terminate at `Float` for a vertex on a
+    corner of a general-position box and the twin answered `.err "clip stuck"`).
   * a nil slice and an empty slice are both `[]` (smartclip never returns an empty non-nil value).
   * orientations are Go's `orb.Orientation` values: `CCW = 1`, `CW = -1`.
   * the tables `nexts[CW]`, `nexts[CCW]` (`[11]int` literals), the `pointFor` switch and `pointSide`
@@ -406,18 +409,30 @@ def polygonContains (outer r : List (Pt α)) : Bool :=
       if (decide (pi.y > p.y) != decide (pj.y > p.y)) &&
          decide (p.x < (pj.x - pi.x) * (p.y - pi.y) / (pj.y - pi.y) + pi.x) then !inside else inside) false
 
-/-- `addToMultiPolygon`: the ring goes to the first polygon whose outer ring contains one of its
-    vertices; it is dropped when there is none. -/
-def addToMultiPolygon : List (List (List (Pt α))) → List (Pt α) → Res String (List (List (List (Pt α))))
-  | [], _ => .ok []
-  | pg :: rest, ring =>
+/-- the loop of `addToMultiPolygon` (after fix C16-3): `best` is the index and outer ring of the innermost
+    polygon seen so far whose outer ring contains a vertex of `ring`; a later polygon replaces it when
+    `best`'s outer ring contains one of that polygon's outer vertices.  `mp[i][0]` is evaluated for
+    EVERY polygon (no early return any more), so a polygon without rings panics wherever it stands. -/
+def bestContainer (ring : List (Pt α)) :
+    List (List (List (Pt α))) → Nat → Option (Nat × List (Pt α)) → Res String (Option (Nat × List (Pt α)))
+  | [], _, best => .ok best
+  | pg :: rest, i, best =>
     match pg with
     | [] => .panic "index out of range"
     | outer :: _ =>
-      if polygonContains outer ring then .ok ((pg ++ [ring]) :: rest)
-      else do
-        let r ← addToMultiPolygon rest ring
-        pure (pg :: r)
+      let take := polygonContains outer ring &&
+        (match best with
+         | none => true
+         | some (_, bo) => polygonContains bo outer)
+      bestContainer ring rest (i + 1) (if take then some (i, outer) else best)
+
+/-- `addToMultiPolygon`: the ring goes to the INNERMOST polygon whose outer ring contains one of its
+    vertices; it is dropped when there is none. -/
+def addToMultiPolygon (mp : List (List (List (Pt α)))) (ring : List (Pt α)) :
+    Res String (List (List (List (Pt α)))) := do
+  match ← bestContainer ring mp 0 none with
+  | none => pure mp
+  | some (i, _) => pure (mp.modify i (· ++ [ring]))
 
 def addAll (mp : List (List (List (Pt α)))) (rings : List (List (Pt α))) : Res String (List (List (List (Pt α)))) :=
   rings.foldlM addToMultiPolygon mp
